@@ -328,14 +328,28 @@ pub unsafe extern "C" fn SFileCreateArchive(
 #[no_mangle]
 pub extern "C" fn SFileCloseArchive(handle: HANDLE) -> bool {
     if let Some(handle_id) = handle_to_id(handle) {
-        // Remove any open files from this archive
-        FILES
-            .lock()
-            .unwrap()
-            .retain(|_, file| file.archive_handle != handle_id);
+        // Remove the archive and its open files under the ARCHIVES lock (same lock
+        // order as SFileOpenFileEx: ARCHIVES, then FILES), so that a concurrent
+        // SFileOpenFileEx cannot register a file handle for an archive that is
+        // being closed.
+        let mut archives = ARCHIVES.lock().unwrap();
+        let removed = archives.remove(&handle_id);
+        if removed.is_some() {
+            FILES
+                .lock()
+                .unwrap()
+                .retain(|_, file| file.archive_handle != handle_id);
+        }
+        drop(archives);
 
-        // Close the archive
-        if ARCHIVES.lock().unwrap().remove(&handle_id).is_some() {
+        if removed.is_some() {
+            // Search handles belong to the archive as well. FIND_HANDLES is taken
+            // after ARCHIVES has been released (SFileFindNextFile locks them in the
+            // opposite order).
+            FIND_HANDLES
+                .lock()
+                .unwrap()
+                .retain(|_, find| find.archive_handle != handle_id);
             set_last_error(ERROR_SUCCESS);
             true
         } else {
@@ -2009,6 +2023,15 @@ pub unsafe extern "C" fn SFileFindFirstFile(
 
         find_handle.current_index += 1; // Move to next for SFileFindNextFile
         FIND_HANDLES.lock().unwrap().insert(handle_id, find_handle);
+
+        // The ARCHIVES lock was released above. If the archive has been closed in the
+        // meantime, SFileCloseArchive may already have purged its search handles, so take
+        // this one back. (If the close comes after this check, its purge removes it.)
+        if !ARCHIVES.lock().unwrap().contains_key(&archive_id) {
+            FIND_HANDLES.lock().unwrap().remove(&handle_id);
+            set_last_error(ERROR_INVALID_HANDLE);
+            return INVALID_HANDLE_VALUE;
+        }
 
         set_last_error(ERROR_SUCCESS);
         id_to_handle(handle_id)
